@@ -19,9 +19,7 @@ instance : Frob BnFq := ⟨fun _ a => a⟩
 
 /-- `bn256/fq2.rs: ExtField for Fq2 :: mul_by_nonresidue`: `(9 + u)·(c0 + c1 u)` computed as
 `8·a + …`. -/
-def bnFq2MulNR (a : BnFq2) : BnFq2 :=
-  let t := Quad.double (Quad.double (Quad.double a))
-  ⟨t.c0 + a.c0 - a.c1, t.c1 + a.c0 + a.c1⟩
+def bnFq2MulNR (a : BnFq2) : BnFq2 := Quad.mulNR9 a
 
 instance : NonRes BnFq2 := ⟨bnFq2MulNR⟩
 
@@ -46,7 +44,7 @@ instance : NonRes BlsFp := ⟨fun a => -a⟩
 instance : Frob BlsFp := ⟨fun _ a => a⟩
 
 /-- `bls12_381/fp2.rs: mul_by_nonresidue`: `(1 + u)·(c0 + c1 u) = (c0 − c1) + (c1 + c0) u`. -/
-def blsFp2MulNR (a : BlsFp2) : BlsFp2 := ⟨a.c0 - a.c1, a.c1 + a.c0⟩
+def blsFp2MulNR (a : BlsFp2) : BlsFp2 := Quad.mulNR1 a
 
 instance : NonRes BlsFp2 := ⟨blsFp2MulNR⟩
 
